@@ -952,6 +952,10 @@ func stallRun(rng *rand.Rand, run int) {
 	conn.feed(f2[cutAt:], o2[cutAt:])
 	select {
 	case x := <-resc[1]:
+		if x.err != nil && ctx.Err() != nil {
+			inconclusive("harness context ended")
+			return
+		}
 		outEv(1, x, r2)
 	case <-time.After(25 * time.Second):
 		inconclusive("second exchange did not return")
